@@ -184,3 +184,9 @@ func readFileOr(path, def string) string {
 	}
 	return string(b)
 }
+
+func removeAll(dir string) {
+	if os.Getenv("VERIF_KEEP") == "" {
+		os.RemoveAll(dir)
+	}
+}
